@@ -282,8 +282,10 @@ func (C15) Run(t *testing.T, plan *kernel.Plan, keepLog bool) *kernel.Result {
 type poisonKS struct{ h *ksw.Handle }
 
 func (p poisonKS) GetPoisonKeyPair() (*keys.Keypair, error) { return p.h.KS.GetPoisonKeyPair() }
-func (p poisonKS) GetPoisonPrivateKeys() ([]*keys.PrivateKey, error)  { return p.h.KS.GetPoisonPrivateKeys() }
-func (p poisonKS) GetPoisonSymmetricKeys() ([][]byte, error)      { return p.h.KS.GetPoisonSymmetricKeys() }
-func (p poisonKS) GetPoisonSymmetricKey() ([]byte, error)         { return p.h.KS.GetPoisonSymmetricKey() }
-func (p poisonKS) GeneratePoisonSymmetricKey() error              { return p.h.Mk.GeneratePoisonSymmetricKey() }
-func (p poisonKS) GeneratePoisonKeyPair() error                   { return p.h.Mk.GeneratePoisonKeyPair() }
+func (p poisonKS) GetPoisonPrivateKeys() ([]*keys.PrivateKey, error) {
+	return p.h.KS.GetPoisonPrivateKeys()
+}
+func (p poisonKS) GetPoisonSymmetricKeys() ([][]byte, error) { return p.h.KS.GetPoisonSymmetricKeys() }
+func (p poisonKS) GetPoisonSymmetricKey() ([]byte, error)    { return p.h.KS.GetPoisonSymmetricKey() }
+func (p poisonKS) GeneratePoisonSymmetricKey() error         { return p.h.Mk.GeneratePoisonSymmetricKey() }
+func (p poisonKS) GeneratePoisonKeyPair() error              { return p.h.Mk.GeneratePoisonKeyPair() }
